@@ -18,6 +18,13 @@ pub struct Case {
     pub t1: ([[f64; 2]; 2], [f64; 2]),
     pub t2: ([[f64; 2]; 2], [f64; 2]),
     pub tag: String,
+    /// place each copy in two steps (transform of an already placed copy) - the composition is
+    /// the same placement
+    #[serde(default)]
+    pub two_step: Option<([[f64; 2]; 2], [f64; 2])>,
+    /// pass the placed shapes through JSON before testing them
+    #[serde(default)]
+    pub via_json: bool,
 }
 
 fn aff(t: &([[f64; 2]; 2], [f64; 2])) -> Affine {
@@ -37,8 +44,34 @@ fn check_generic<S: HardGeom>(base: S, c: &Case, st: &mut Stats) {
         return;
     }
     let (t1, t2) = (aff(&c.t1), aff(&c.t2));
-    let a = base.transform(&from_affine(&t1));
-    let b = base.transform(&from_affine(&t2));
+    // T = (T o S^-1) o S for a rigid S: the same placement reached in two steps
+    let place = |t: &Affine| -> S {
+        match c.two_step {
+            Some((m, tr)) => {
+                let s = Affine { m, t: tr };
+                // inverse of a rigid motion / reflection: transpose of the linear part
+                let mi = [[m[0][0], m[1][0]], [m[0][1], m[1][1]]];
+                let ti = [-(mi[0][0] * tr[0] + mi[0][1] * tr[1]), -(mi[1][0] * tr[0] + mi[1][1] * tr[1])];
+                let sinv = Affine { m: mi, t: ti };
+                let second = t.mul(&sinv);
+                base.transform(&from_affine(&s)).transform(&from_affine(&second))
+            }
+            None => base.transform(&from_affine(t)),
+        }
+    };
+    let (mut a, mut b) = (place(&t1), place(&t2));
+    if c.via_json {
+        match (serde_json::to_value(&a).and_then(serde_json::from_value::<S>), serde_json::to_value(&b).and_then(serde_json::from_value::<S>)) {
+            (Ok(x), Ok(y)) => {
+                a = x;
+                b = y;
+            }
+            _ => {
+                st.violation(Violation { kind: "c12.pair".into(), signature: "Shape:json-round-trip-fails".into(), case: serde_json::to_value(c).unwrap(), detail: json!({}) });
+                return;
+            }
+        }
+    }
     let (oa, obb) = (a.oshape(), b.oshape());
     // the library's placed geometry must be the base geometry under the transform
     let (wa, wb) = (ob.placed(&t1), ob.placed(&t2));
@@ -46,7 +79,7 @@ fn check_generic<S: HardGeom>(base: S, c: &Case, st: &mut Stats) {
     let same = |x: &OShape, y: &OShape| -> bool {
         let (px, py) = (x.points(), y.points());
         px.len() == py.len()
-            && px.iter().zip(py.iter()).all(|(p, q)| (p.0[0] - q.0[0]).abs() <= 1e-12 * mag && (p.0[1] - q.0[1]).abs() <= 1e-12 * mag && p.1 == q.1)
+            && px.iter().zip(py.iter()).all(|(p, q)| (p.0[0] - q.0[0]).abs() <= 1e-11 * mag && (p.0[1] - q.0[1]).abs() <= 1e-11 * mag && p.1 == q.1)
     };
     if !same(&oa, &wa) || !same(&obb, &wb) {
         st.violation(Violation {
@@ -255,7 +288,7 @@ pub fn gen_polygon_case<R: Rng>(rng: &mut R) -> Case {
         }
     };
     let t2 = f.mul(&rel);
-    Case { shape, t1: (f.m, f.t), t2: (t2.m, t2.t), tag: tag.to_string() }
+    Case { shape, t1: (f.m, f.t), t2: (t2.m, t2.t), tag: tag.to_string(), two_step: None, via_json: false }
 }
 
 pub fn gen_disc_case<R: Rng>(rng: &mut R) -> Case {
@@ -285,16 +318,21 @@ pub fn gen_disc_case<R: Rng>(rng: &mut R) -> Case {
         (Affine { m: rot(rng.gen_range(0., 2. * PI)), t: [d * dir.cos(), d * dir.sin()] }, "random")
     };
     let t2 = f.mul(&rel);
-    Case { shape, t1: (f.m, f.t), t2: (t2.m, t2.t), tag: tag.to_string() }
+    Case { shape, t1: (f.m, f.t), t2: (t2.m, t2.t), tag: tag.to_string(), two_step: None, via_json: false }
 }
 
 pub fn run(ctx: &Ctx) {
-    ctx.set_rule("two placed copies of one shape (regular 3..12-gons, convex radial polygons, circle, trimers): random relative placements and constructed alignments (coincident, parallel edges slid along an edge with face contact at 2 r_in (1 +- {0,1e-12,1e-7,1e-3}), shared vertex, vertex on edge, mirror images, disc contact at (r1+r2)(1 +- ...)), each under base frames {identity, k pi/4, random, 100-1000 from the origin, reflected}; library answer (both argument orders) vs separating-axis depth / centre distance computed from the library-placed coordinates; required only when |depth| > 1e-9; non-trivial = |depth| < 0.1 or any constructed alignment; distinct by quantised (shape, construction, depth, offset)");
+    ctx.set_rule("two placed copies of one shape (regular 3..12-gons, convex radial polygons, circle, trimers): random relative placements and constructed alignments (coincident, parallel edges slid along an edge with face contact at 2 r_in (1 +- {0,1e-12,1e-7,1e-3}), shared vertex, vertex on edge, mirror images, disc contact at (r1+r2)(1 +- ...)), each under base frames {identity, k pi/4, random, 100-1000 from the origin, reflected}; 15% of the copies are placed in two steps (a placed copy transformed again), 5% are passed through JSON first; library answer (both argument orders) vs separating-axis depth / centre distance computed from the library-placed coordinates; required only when |depth| > 1e-9; non-trivial = |depth| < 0.1 or any constructed alignment; distinct by quantised (shape, construction, depth, offset)");
     ctx.assume("convex polygons only (separating-axis theorem); non-convex radial shapes are skipped");
     let n = ctx.tier.pick(40_000u64, 4_000_000u64);
     par_shards(ctx, 12, 64, |_, rng, st| {
         for _ in 0..n {
-            let c = if rng.gen_bool(0.7) { gen_polygon_case(rng) } else { gen_disc_case(rng) };
+            let mut c = if rng.gen_bool(0.7) { gen_polygon_case(rng) } else { gen_disc_case(rng) };
+            if rng.gen_bool(0.15) {
+                let f = base_frame(rng);
+                c.two_step = Some((f.m, f.t));
+            }
+            c.via_json = rng.gen_bool(0.05);
             check(&c, st);
         }
     });
